@@ -1,5 +1,5 @@
 """C11 — HexaryTrieFog is an immutable, order-independent record of unexplored prefixes (DESIGN §5 C11)."""
-from ..engine import explore, unjson, HarnessError
+from ..engine import explore, replay_doc
 from ..fogsys import FogSys
 from ..report import Report
 
@@ -12,7 +12,7 @@ def run(tier, seed):
                 "serialize round-trip, ==, nearest_unknown / nearest_right on the whole query grid, pairwise commutation; on every transition: "
                 "set model, receiver unchanged, invalid calls rejected without effect")
     rep.assumptions = ["nibble alphabet and depth bound of DESIGN §4 (relabelled by VERIF_SEED)"]
-    plans = [dict(nibbles=(0, 7, 15), depth=2, mark_sizes=2)]
+    plans = [dict(nibbles=(0, 7, 15), depth=2, mark_sizes=2), dict(nibbles=(0, 15), depth=3, mark_sizes=1, query_nibbles=(0, 7, 15))]
     if tier == "thorough":
         plans += [dict(nibbles=(0, 15), depth=3, mark_sizes=3), dict(nibbles=(0, 3, 7, 15), depth=2, mark_sizes=2)]
     for kw in plans:
@@ -23,24 +23,5 @@ def run(tier, seed):
 
 
 def replay(doc):
-    outcomes = []
-    for _ in range(2):
-        kw = doc["system"]["kwargs"]
-        sysm = FogSys(**{k: (tuple(v) if isinstance(v, list) else v) for k, v in kw.items()})
-        hist = [unjson(e) for e in doc["history"]]
-        snap, model = sysm.initial()[hist[0][1]]
-        found = []
-        for ev in hist[1:]:
-            found += [v["check"] for v in sysm.state_check(snap, model)]
-            st = sysm.step(snap, model, ev)
-            found += [v["check"] for v in st.viols]
-            if st.snap is None:
-                break
-            snap = st.snap
-        else:
-            found += [v["check"] for v in sysm.state_check(snap, model)]
-        outcomes.append(found)
-    if outcomes[0] != outcomes[1]:
-        raise HarnessError("replay is not deterministic")
-    print("replayed history; failing checks:", outcomes[0])
-    return doc["check"] in outcomes[0]
+    kw = doc["system"]["kwargs"]
+    return replay_doc(lambda: FogSys(**{k: (tuple(v) if isinstance(v, list) else v) for k, v in kw.items()}), doc)
